@@ -188,6 +188,10 @@ let () =
             | _ -> "oracle=fail@unparsable") in
          Printf.printf "%s %s%s | %s\n" (res_name res) (rle (bytes_of_nlist wire)) tail verdict
        | _ -> Printf.printf "noparams | oracle=fail@%s\n" (match itoks with t :: _ -> t | [] -> "empty"))
+    | ["dual"; _size; _stall] ->
+      (* two overlapping responses of one file: each is written whole (the model has no shared state between responses) *)
+      let want = "first: ok whole=1 second: ok whole=1" in
+      Printf.printf "%s | %s\n" want (if impl_line = want then "oracle=ok" else "oracle=fail@overlapping-responses-of-one-file")
     | ["rp"; _code] ->
       (match itoks with
        | [t] when t.[0] = 'x' -> Printf.printf "%s | %s\n" t (if reason_text_ok (bytes_of_tok t) then "oracle=ok" else "oracle=fail@reason-phrase-not-printable-text")
